@@ -174,9 +174,9 @@ if self.context.second_partition is None:
 else:
     self.mev_utilities = __M2
 """)
-    ok = b is not None and m_node(_parse("{_I: self.generate_utility(prefix='', suffix=f'_{_I}') for _I in range(self.total_sample_size)}")[0].value, b['__U'][1], {}) \
+    ok = b is not None and m_node(_parse("{_I: self.generate_utility('', f'_{_I}') for _I in range(self.total_sample_size)}")[0].value, b['__U'][1], {}) \
         and m_node(_parse("{_I: self.utilities[_I] for _I in range(1, self.total_sample_size)}")[0].value, b['__M1'][1], {}) \
-        and m_node(_parse("{_I: self.generate_utility(prefix=self.mev_prefix, suffix=f'_{_I}') for _I in range(self.context.second_sample_size)}")[0].value, b['__M2'][1], {})
+        and m_node(_parse("{_I: self.generate_utility(self.mev_prefix, f'_{_I}') for _I in range(self.context.second_sample_size)}")[0].value, b['__M2'][1], {})
     ctx.add('C19.R2', 'GenerateModel.__init__', ok, init, 'utility i reads the attributes with suffix _i; the second sample uses the MEV prefix; without second partition the MEV sample is the main sample minus the chosen alternative' if ok else 'construction of the sampled utilities changed', 'utilities')
     n3 = 0
     for name, fn in M.methods.items():
